@@ -8,7 +8,7 @@ D=${1:?worktree}
 cd "$D"
 export CARGO_NET_OFFLINE=true
 cargo nextest run --workspace --no-fail-fast --tool-config-file pb:/w/lib/nextest.toml --profile pb --test-threads 8 --offline >"$D/suite.log" 2>&1
-python3 - "$D/target/nextest/pb/junit.xml" > "$D/suite_missing.txt" <<'P'
+python3 - "$D/target/nextest/pb/junit.xml" > "$D/target/suite_missing.txt" <<'P'
 import json,sys,xml.etree.ElementTree as ET
 b=json.load(open('/root/.vp/BASELINE.json'))
 root=ET.parse(sys.argv[1]).getroot()
@@ -33,6 +33,6 @@ while read -r T; do
     if cargo nextest run --workspace --offline --test-threads 1 -E "$FILTER" >>"$D/suite_retry.log" 2>&1; then OK=1; break; fi
   done
   if [ $OK -eq 1 ]; then echo "RETRIED-OK (alone): $T"; else echo "NOT PASSING: $T"; STILL=1; fi
-done < "$D/suite_missing.txt"
+done < "$D/target/suite_missing.txt"
 [ $STILL -eq 0 ] && echo "stable set passes" 
 exit $STILL
